@@ -91,7 +91,19 @@ func (fc *FnCtx) lookupTypeNameIn(name string, pkgPath string) types.Type {
 		name = name[1:]
 	}
 	var t types.Type
-	if strings.HasPrefix(name, "$dom[") || strings.HasPrefix(name, "$val[") || strings.HasPrefix(name, "map[") {
+	if strings.HasPrefix(name, "$row[") && strings.HasSuffix(name, "]") {
+		key := pkgPath + "|" + name
+		if pt, ok := pseudoTypes[key]; ok {
+			t = pt
+		} else {
+			et := fc.lookupTypeNameIn(name[5:len(name)-1], pkgPath)
+			if et == nil {
+				return nil
+			}
+			t = fc.rowType(et)
+			pseudoTypes[key] = t
+		}
+	} else if strings.HasPrefix(name, "$dom[") || strings.HasPrefix(name, "$val[") || strings.HasPrefix(name, "map[") {
 		key := pkgPath + "|" + name
 		if pt, ok := pseudoTypes[key]; ok {
 			t = pt
@@ -187,8 +199,18 @@ func (fc *FnCtx) lookupTypeNameIn(name string, pkgPath string) types.Type {
 
 var pseudoTypes = map[string]types.Type{}
 
+func (fc *FnCtx) rowType(elem types.Type) types.Type {
+	key := "|$row|" + types.TypeString(elem, nil)
+	if t, ok := pseudoTypes[key]; ok {
+		return t
+	}
+	t := types.NewNamed(types.NewTypeName(0, nil, "$row", nil), types.NewSlice(elem), nil)
+	pseudoTypes[key] = t
+	return t
+}
+
 func pseudoKind(t types.Type) string {
-	if n, ok := t.(*types.Named); ok && n.Obj().Pkg() == nil && (n.Obj().Name() == "$dom" || n.Obj().Name() == "$val") {
+	if n, ok := t.(*types.Named); ok && n.Obj().Pkg() == nil && (n.Obj().Name() == "$dom" || n.Obj().Name() == "$val" || n.Obj().Name() == "$row") {
 		return n.Obj().Name()
 	}
 	return ""
@@ -510,7 +532,9 @@ func (sc *Scope) tr(e Expr) (Term, types.Type) {
 	case *EIndex:
 		xt, ty := sc.tr(x.X)
 		it, ity := sc.tr(x.I)
-		if pk := pseudoKind(ty); pk != "" {
+		if pk := pseudoKind(ty); pk == "$row" {
+			return Select(xt, it), ty.Underlying().(*types.Slice).Elem()
+		} else if pk != "" {
 			mt := ty.Underlying().(*types.Map)
 			if pk == "$dom" {
 				return Select(xt, it), tBool
@@ -901,6 +925,22 @@ func (sc *Scope) trCall(x *ECall) (Term, types.Type) {
 		}
 		dom, _, _ := fc.mapVars(mt)
 		return T(SBool, "(and (not (= %s 0)) %s)", m.S, Select(Select(fc.lookupIn(sc.curEnv(), dom), m), k).S), tBool
+	case "row", "rowoff":
+		// the backing array of a slice as a value, and the slice's offset into it
+		sl, sty := arg(0)
+		st, ok := sty.Underlying().(*types.Slice)
+		if !ok || pseudoKind(sty) != "" {
+			sc.fail("%s: not a slice", name)
+		}
+		if name == "rowoff" {
+			return T(SInt, "(s_off %s)", sl.S), tInt
+		}
+		mem := fc.lookupIn(sc.curEnv(), fc.memVar(st.Elem()))
+		return Select(mem, T(SInt, "(s_arr %s)", sl.S)), fc.rowType(st.Elem())
+	case "ix":
+		a, _ := arg(0)
+		b, _ := arg(1)
+		return fc.ix(a, b), tInt
 	case "dom", "vals", "mapkey", "mapat":
 		m, mty := arg(0)
 		mt, ok := mty.Underlying().(*types.Map)
@@ -1035,6 +1075,23 @@ func (sc *Scope) trCall(x *ECall) (Term, types.Type) {
 		// iface(x): the interface value holding x
 		t, ty := arg(0)
 		return fc.box(ty, t), types.Universe.Lookup("error").Type()
+	}
+	if ct := fc.eng.Contracts[name]; ct != nil && ct.Assumed && ct.Flags["pure"] {
+		// assumed pure interface method: Iface.Method(receiver, args...)
+		rty := sc.ifaceMethodResult(name)
+		if rty == nil {
+			sc.fail("%s: cannot determine the result type", name)
+		}
+		var as []Term
+		var sorts []string
+		for i := range x.Args {
+			t, _ := arg(i)
+			as = append(as, t)
+			sorts = append(sorts, string(t.Sort))
+		}
+		uf := fmt.Sprintf("pi_%s_0", mangle(ct.Name))
+		fc.eng.GDecl(uf, fmt.Sprintf("(declare-fun %s (%s) %s)", uf, strings.Join(sorts, " "), u.SortOf(rty)))
+		return App(u.SortOf(rty), uf, as...), rty
 	}
 	if rt, ok := specLibFuncs[name]; ok {
 		// deterministic library function: the same uninterpreted function the code model uses
@@ -1296,4 +1353,34 @@ func substExpr(e Expr, sub map[string]Expr) Expr {
 		return n
 	}
 	return e
+}
+
+// ifaceMethodResult: the (single) result type of "Iface.Method" looked up in
+// the scope's package.
+func (sc *Scope) ifaceMethodResult(name string) types.Type {
+	parts := strings.Split(name, ".")
+	if len(parts) < 2 || sc.pkg == nil {
+		return nil
+	}
+	pkg := sc.pkg
+	if len(parts) == 3 {
+		if ip := sc.importedPkg(parts[0]); ip != nil {
+			pkg = ip
+		}
+		parts = parts[1:]
+	}
+	tn, ok := pkg.Scope().Lookup(parts[0]).(*types.TypeName)
+	if !ok {
+		return nil
+	}
+	o, _, _ := types.LookupFieldOrMethod(tn.Type(), true, pkg, parts[1])
+	f, ok := o.(*types.Func)
+	if !ok {
+		return nil
+	}
+	res := f.Type().(*types.Signature).Results()
+	if res.Len() != 1 {
+		return nil
+	}
+	return res.At(0).Type()
 }
